@@ -85,39 +85,21 @@ Theorem step_InvT c s ev : InvT c s -> InvT c (fst (step c s ev)).
 Proof.
   intros HT. destruct ev; cbn [step].
   - (* EvHtlc *)
-    destruct (entry_ (pl s)) as [e|] eqn:He.
-    + destruct (find_select 0 (lcs (pl s))) as [[[i d] li]|] eqn:Hf; [|exact HT].
-      destruct (find_select_spec _ _ _ _ _ Hf) as (x & Hx & Hp & _). rewrite Nat.sub_0_r in Hx.
-      match goal with |- InvT c (fst (let '(s2, o2) := apply_adv ?s1 ?i ?aa in _)) =>
-        assert (HA : InvT c (fst (apply_adv s1 i aa))) end.
-      { intros j y dl Hy Hpy. match goal with |- context [apply_adv ?s1 ?i ?aa] => destruct (apply_adv_lcs s1 i aa x Hx) as (Hl & _ & _ & Hnow & _) end.
-        rewrite Hl in Hy. rewrite Hnow. cbn [now].
-        destruct (nth_upd_cases _ _ _ _ _ Hy) as [[-> ->]|[Hne Hy']].
-        - cbn [set_pc l_pc] in Hpy.
-          pose proof (select_poll_pc c li (length (calls s)) (height s) (now s) d (Some (e_handle c e h)) true (next_att (pl s))) as X.
-          rewrite Hpy in X. subst dl. exact (HT _ _ _ Hx Hp).
-        - exact (HT _ _ _ Hy' Hpy). }
-      match type of HA with InvT c (fst ?t) => destruct t as [s2 o2] end. exact HA.
-    + destruct (find_select 0 _) as [[[i d] li]|] eqn:Hf.
-      * destruct (find_select_spec _ _ _ _ _ Hf) as (x & Hx & Hp & _). rewrite Nat.sub_0_r in Hx.
-        match goal with |- InvT c (fst (let '(s2, o2) := apply_adv ?s1 ?i ?aa in _)) =>
-          assert (HA : InvT c (fst (apply_adv s1 i aa))) end.
-        { intros j y dl Hy Hpy. match goal with |- context [apply_adv ?s1 ?i ?aa] => destruct (apply_adv_lcs s1 i aa x Hx) as (Hl & _ & _ & Hnow & _) end.
-          rewrite Hl in Hy. rewrite Hnow. cbn [now].
-          assert (Hold : forall j0 y0 dl0, nth_error (lcs (pl s) ++ [{| l_pc := PFetch (length (calls s)); l_info := {| li_blob := blob h; li_deliver := deliver h; li_inv_amount := inv_amount h |} |}]) j0 = Some y0 ->
-                         l_pc y0 = PSelect dl0 -> now s < dl0 /\ dl0 <= now s + mpp_ms c).
-          { intros j0 y0 dl0 Hy0 Hp0. destruct (Nat.lt_ge_cases j0 (length (lcs (pl s)))) as [Hlt|Hge].
-            - rewrite nth_error_app1 in Hy0 by exact Hlt. exact (HT _ _ _ Hy0 Hp0).
-            - rewrite nth_error_app2 in Hy0 by exact Hge. destruct (j0 - length (lcs (pl s)))%nat as [|k]; cbn in Hy0; [inversion Hy0; subst; discriminate|destruct k; discriminate]. }
-          destruct (nth_upd_cases _ _ _ _ _ Hy) as [[-> ->]|[Hne Hy']].
-          - cbn [set_pc l_pc] in Hpy.
-            match type of Hpy with a_pc (select_poll ?c0 ?li0 ?b0 ?h0 ?t0 ?d0 ?e0 ?sel0 ?na0) = _ => pose proof (select_poll_pc c0 li0 b0 h0 t0 d0 e0 sel0 na0) as X end.
-            rewrite Hpy in X. subst dl. exact (Hold _ _ _ Hx Hp).
-          - exact (Hold _ _ _ Hy' Hpy). }
-        match type of HA with InvT c (fst ?t) => destruct t as [s2 o2] end. exact HA.
-      * intros j y dl Hy Hpy. cbn in *. destruct (Nat.lt_ge_cases j (length (lcs (pl s)))) as [Hlt|Hge].
-        -- rewrite nth_error_app1 in Hy by exact Hlt. exact (HT _ _ _ Hy Hpy).
-        -- rewrite nth_error_app2 in Hy by exact Hge. destruct (j - length (lcs (pl s)))%nat as [|k]; cbn in Hy; [inversion Hy; subst; discriminate|destruct k; discriminate].
+    destruct (entry_ (pl s)) as [e|] eqn:He; [exact HT|].
+    intros j y dl Hy Hpy. cbn in *. destruct (Nat.lt_ge_cases j (length (lcs (pl s)))) as [Hlt|Hge].
+    + rewrite nth_error_app1 in Hy by exact Hlt. exact (HT _ _ _ Hy Hpy).
+    + rewrite nth_error_app2 in Hy by exact Hge. destruct (j - length (lcs (pl s)))%nat as [|k]; cbn in Hy; [inversion Hy; subst; discriminate|destruct k; discriminate].
+  - (* EvPoll *)
+    destruct (find_select 0 (lcs (pl s))) as [[[i d] li]|] eqn:Hf; [|exact HT].
+    destruct (find_select_spec _ _ _ _ _ Hf) as (x & Hx & Hp & _). rewrite Nat.sub_0_r in Hx.
+    intros j y dl Hy Hpy.
+    destruct (apply_adv_lcs s i (select_poll c li (length (calls s)) (height s) (now s) d (entry_ (pl s)) sel (next_att (pl s))) x Hx) as (Hl & _ & _ & Hnow & _).
+    rewrite Hl in Hy. rewrite Hnow.
+    destruct (nth_upd_cases _ _ _ _ _ Hy) as [[-> ->]|[Hne Hy']].
+    + cbn [set_pc l_pc] in Hpy.
+      pose proof (select_poll_pc c li (length (calls s)) (height s) (now s) d (entry_ (pl s)) sel (next_att (pl s))) as X.
+      rewrite Hpy in X. subst dl. exact (HT _ _ _ Hx Hp).
+    + exact (HT _ _ _ Hy' Hpy).
   - destruct (nth_error (calls s) cid) as [cl|]; [|exact HT]. destruct (c_st cl); try exact HT.
     destruct (node_exec (nd s) (c_rpc cl) f). exact HT.
   - (* EvDeliver *)
@@ -288,21 +270,21 @@ Proof.
   destruct ev; cbn [step].
   - (* EvHtlc *)
     rewrite He. pose proof (e_handle_doomed c e h HEe Hdm) as Hd1. destruct Hd1 as (Hf1 & Hq1).
-    destruct (find_select 0 (lcs (pl s))) as [[[i d] li]|] eqn:Hf.
-    + destruct (find_select_spec _ _ _ _ _ Hf) as (x & Hx & Hp & _). rewrite Nat.sub_0_r in Hx.
-      destruct (select_poll_doomed c li (length (calls s)) (height s) (now s) d (e_handle c e h) true (next_att (pl s)) Hq1) as (Hnew & Hent).
-      match goal with |- context [apply_adv ?s1 ?i ?aa] =>
-        pose proof (apply_adv_calls s1 i aa) as HC; destruct (apply_adv_lcs s1 i aa x Hx) as (Hl & Hen & _);
-        destruct (apply_adv s1 i aa) as [s2 o2] end.
-      cbn [fst snd app] in *. split.
-      * intros cid q Hin. destruct (HC cid q Hin) as [H|H]; [exfalso; exact (select_poll_out_no_call _ _ _ _ _ _ _ _ _ _ _ H)|].
-        rewrite Hnew in H. destruct H.
-      * destruct Hent as [Hn|(Hs & Hpc)]; [left; rewrite Hen; exact Hn|right].
-        exists (e_handle c e h). rewrite Hen. split; [exact Hs|]. split; [split; assumption|].
-        intros j y Hy Ay. rewrite Hl in Hy. destruct (nth_upd_cases _ _ _ _ _ Hy) as [[-> ->]|[Hne Hy']].
-        -- cbn [set_pc l_pc]. rewrite Hpc. reflexivity.
-        -- exact (Hpre j y Hy' Ay).
-    + split; [intros cid q []|]. right. exists (e_handle c e h). cbn. split; [reflexivity|]. split; [split; assumption|exact Hpre].
+    split; [intros cid q []|]. right. exists (e_handle c e h). cbn. split; [reflexivity|]. split; [split; assumption|exact Hpre].
+  - (* EvPoll *)
+    destruct (find_select 0 (lcs (pl s))) as [[[i d] li]|] eqn:Hf; [|split; [intros ? ? []|apply Same; reflexivity]].
+    destruct (find_select_spec _ _ _ _ _ Hf) as (x & Hx & Hp & _). rewrite Nat.sub_0_r in Hx.
+    rewrite He. destruct Hdm as (Hfl & Hq).
+    destruct (select_poll_doomed c li (length (calls s)) (height s) (now s) d e sel (next_att (pl s)) Hq) as (Hnew & Hent).
+    destruct (apply_adv_lcs s i (select_poll c li (length (calls s)) (height s) (now s) d (Some e) sel (next_att (pl s))) x Hx) as (Hl & Hen & _).
+    split.
+    + intros cid q Hin. destruct (apply_adv_calls _ _ _ _ _ Hin) as [H|H]; [exfalso; exact (select_poll_out_no_call _ _ _ _ _ _ _ _ _ _ _ H)|].
+      rewrite Hnew in H. destruct H.
+    + destruct Hent as [Hn|(Hs & Hpc)]; [left; rewrite Hen; exact Hn|right].
+      exists e. rewrite Hen. split; [exact Hs|]. split; [split; assumption|].
+      intros j y Hy Ay. rewrite Hl in Hy. destruct (nth_upd_cases _ _ _ _ _ Hy) as [[-> ->]|[Hne Hy']].
+      * cbn [set_pc l_pc]. rewrite Hpc. reflexivity.
+      * exact (Hpre j y Hy' Ay).
   - (* EvProcess *)
     destruct (nth_error (calls s) cid) as [cl|]; [|split; [intros ? ? []|apply Same; reflexivity]].
     destruct (c_st cl); try (split; [intros ? ? []|apply Same; reflexivity]).
@@ -381,14 +363,5 @@ Proof.
   assert (Hd1 : doomed (e_handle c e h)) by (split; [apply e_handle_reject_sets_fail; exact Hrej|rewrite gate_reject_keeps_rdy; auto]).
   destruct Hd1 as (Hf1 & Hq1).
   cbn [step]. rewrite He.
-  destruct (find_select 0 (lcs (pl s))) as [[[i d] li]|] eqn:Hf.
-  - destruct (find_select_spec _ _ _ _ _ Hf) as (x & Hx & Hp & _). rewrite Nat.sub_0_r in Hx.
-    destruct (select_poll_doomed c li (length (calls s)) (height s) (now s) d (e_handle c e h) true (next_att (pl s)) Hq1) as (Hnew & Hent).
-    match goal with |- context [apply_adv ?s1 ?i ?aa] => destruct (apply_adv_lcs s1 i aa x Hx) as (Hl & Hen & _); destruct (apply_adv s1 i aa) as [s2 o2] end.
-    cbn [fst] in *. destruct Hent as [Hn|(Hs & Hpc)]; [left; rewrite Hen; exact Hn|right].
-    exists (e_handle c e h). rewrite Hen. split; [exact Hs|]. split; [split; assumption|].
-    intros j y Hy Ay. rewrite Hl in Hy. destruct (nth_upd_cases _ _ _ _ _ Hy) as [[-> ->]|[Hne Hy']].
-    + cbn [set_pc l_pc]. rewrite Hpc. reflexivity.
-    + exact (Hpre j y Hy' Ay).
-  - right. exists (e_handle c e h). cbn. split; [reflexivity|]. split; [split; assumption|exact Hpre].
+  right. exists (e_handle c e h). cbn. split; [reflexivity|]. split; [split; assumption|exact Hpre].
 Qed.
